@@ -40,6 +40,8 @@ pref = ("for a vial whose stored ice fraction, once positive, stays positive (th
 THEOREMS = [
     _T("tnuc_first_ice", "for a vial whose stored ice fraction, once positive, stays positive (the ONLY trajectory hypothesis, on the vial's own row; MONITORED on every run; follows from C06's conditional run invariant; sigma = 0 before the first ice is proved from the model): ice first appears at the reported nucleation time: t_nuc = t[first column with sigma>0]",
        "full-under-monitored-hypothesis"),
+    _T("tnuc_at_least_first_ice", "no trajectory hypothesis: if a stored column shows ice the vial HAS a recorded t_nuc and it is >= "
+       "t[first column with sigma>0] (equal when the vial keeps its ice; a nucleation record never moves backwards)"),
     _T("tnuc_grid", "nucleation times lie on the grid: t_nuc = (k+1)*dt for an executed step k"),
     _T("tnuc_last_step_counterexample", "REFUTED 'times lie within the process': a vial nucleating in the last step gets "
        "t_nuc = N*dt beyond the last grid time, no column shows its ice (K3)", "counterexample"),
